@@ -492,6 +492,7 @@ def run(ctx):
             from openpyxl.workbook.properties import CalcProperties
             owb.calculation = CalcProperties(iterate=True, iterateCount=30, iterateDelta=0.001)
         case = dict(call='persist', workbook=desc, args=[ext, 'cycles' if cycles else 'plain', place])
+        orig = None
         try:
             orig = ExcelCompiler(excel=owb)
             orig.extra_data = None
@@ -502,6 +503,14 @@ def run(ctx):
             stem = os.path.join(ctx.work, f'm{k}')
             orig.to_file(stem, file_types=(ext,))
         except Exception as exc:      # noqa: BLE001
+            if 'OverflowError' in str(exc) and orig is not None and any(
+                    isinstance(c.value, float) and c.value in (float('inf'), float('-inf'))
+                    for c in orig.cell_map.values() if not hasattr(c, 'addresses')):
+                # the content pool's text '1e3' concatenated with a number ("1e310") is an INFINITE number once it is
+                # used in arithmetic; the original model itself raises (coerce_to_number(inf)): outside the property
+                ctx.histogram['persist: original raises on an infinite number (skipped)'] = \
+                    ctx.histogram.get('persist: original raises on an infinite number (skipped)', 0) + 1
+                continue
             ctx.violation(case, f"build/save raises {type(exc).__name__}: {exc}"[:200])
             continue
         fname = stem + '.' + ext
